@@ -42,13 +42,26 @@ fn shifts(dim: usize) -> Vec<[i32; 3]> {
 
 pub fn run_periodic3(out: &mut Out, rng: &mut Rng, thorough: bool) {
     let reps = if thorough { 10 } else { 2 };
+    // (family, dim) pairs: all families in all dimensions, plus many generic 3D inputs large enough for a deep r-tree
+    let mut plan: Vec<(&str, usize)> = vec![];
     for _ in 0..reps {
         for fam in ["uniform", "lattice", "cluster", "on_boundary", "pair", "single", "coplanar", "lattice_wall"] {
             for dim in [3usize, 2, 1] {
+                plan.push((fam, dim));
+            }
+        }
+    }
+    for _ in 0..(if thorough { 100 } else { 24 }) {
+        plan.push(("uniform", 3));
+    }
+    {
+        {
+            for (fam, dim) in plan {
+                // implementation vs implementation: sizes are not limited by the exact oracle; n >= 7 gives the r-tree inner nodes
                 let n = match dim {
-                    3 => 1 + rng.below(if thorough { 10 } else { 6 }) as usize,
-                    2 => 1 + rng.below(14) as usize,
-                    _ => 1 + rng.below(20) as usize,
+                    3 => 1 + rng.below(if thorough { 120 } else { 60 }) as usize,
+                    2 => 1 + rng.below(if thorough { 200 } else { 60 }) as usize,
+                    _ => 1 + rng.below(if thorough { 300 } else { 60 }) as usize,
                 };
                 let inp = gen::make(rng, fam, dim, true, n);
                 // the replicated, non-periodic problem: copy (s, i) has index s_index * n + i
